@@ -610,3 +610,114 @@ func TestC19_SyncWriteWouldBlockMidItem(t *testing.T) {
 		rec.Case(fmt.Sprintf("sw|%v|%v", sizes, plans), blocked > 0, []string{"sync-write-would-block-mid-item"}, map[string]any{"kind": "sync-write", "sizes": sizes, "write_plans": plans, "would_block_count": blocked})
 	})
 }
+
+// Chains: every AsyncWriteNext is issued from the completion callback of the previous one, every AsyncReadNext likewise
+// (the natural way to stream items). After 32 nested inline completions the next operation is handed to the poller.
+func TestC19_SocketChains(t *testing.T) {
+	rec := evid.For("C19")
+	rec.SetRule(c19Rule)
+	vt.Check(t, 60, func(t *rapid.T) {
+		ioc := theIO()
+		ln, err := sonic.Listen(ioc, "tcp", "127.0.0.1:0")
+		if err != nil {
+			t.Fatalf("listen: %v", err)
+		}
+		defer ln.Close()
+		_, port, _ := sysx.LocalAddr4(ln.RawFd())
+		sender, err := sonic.Dial(ioc, "tcp", fmt.Sprintf("127.0.0.1:%d", port))
+		if err != nil {
+			t.Fatalf("dial: %v", err)
+		}
+		defer sender.Close()
+		receiver, err := ln.Accept()
+		if err != nil {
+			t.Fatalf("accept: %v", err)
+		}
+		defer receiver.Close()
+		n := rapid.IntRange(34, 120).Draw(t, "nitems")
+		items := make([][]byte, n)
+		var sizes []int
+		for i := range items {
+			ln := rapid.OneOf(rapid.IntRange(0, 40), rapid.IntRange(0, 40), rapid.IntRange(0, 700)).Draw(t, "len")
+			b := make([]byte, ln)
+			for j := range b {
+				b[j] = byte(i*13 + j*7)
+			}
+			items[i] = b
+			sizes = append(sizes, ln)
+		}
+		ssrc, sdst := sonic.NewByteBuffer(), sonic.NewByteBuffer()
+		rsrc, rdst := sonic.NewByteBuffer(), sonic.NewByteBuffer()
+		scc, _ := sonic.NewCodecConn[[]byte, []byte](sender, frame.NewCodec(ssrc), ssrc, sdst)
+		rcc, _ := sonic.NewCodecConn[[]byte, []byte](receiver, frame.NewCodec(rsrc), rsrc, rdst)
+		wcalls := make([]int, n)
+		rcalls := 0
+		wi, ri := 0, 0
+		var failure string
+		var writeNext, readNext func()
+		writeNext = func() {
+			if wi >= n || failure != "" {
+				return
+			}
+			i := wi
+			wi++
+			scc.AsyncWriteNext(items[i], func(err error, k int) {
+				wcalls[i]++
+				if wcalls[i] > 1 {
+					failure = fmt.Sprintf("write callback of item #%d invoked %d times", i, wcalls[i])
+					return
+				}
+				if err != nil {
+					failure = fmt.Sprintf("write #%d: %v", i, err)
+					return
+				}
+				if k != 4+len(items[i]) {
+					failure = fmt.Sprintf("write #%d of a %d-byte payload reported %d bytes", i, len(items[i]), k)
+					return
+				}
+				writeNext()
+			})
+		}
+		readNext = func() {
+			if ri >= n || failure != "" {
+				return
+			}
+			i := ri
+			rcc.AsyncReadNext(func(err error, item []byte) {
+				rcalls++
+				if err != nil {
+					failure = fmt.Sprintf("read #%d: %v", i, err)
+					return
+				}
+				if i != ri {
+					failure = fmt.Sprintf("read callback #%d invoked again", i)
+					return
+				}
+				if !bytes.Equal(item, items[i]) {
+					failure = fmt.Sprintf("read #%d: got %d bytes %x.., want %d bytes %x..", i, len(item), head(item), len(items[i]), head(items[i]))
+					return
+				}
+				ri++
+				readNext()
+			})
+		}
+		writeNext()
+		readNext()
+		for iter := 0; failure == "" && (ri < n); iter++ {
+			sysx.WaitReadable(receiver.RawFd(), 20)
+			_, _ = ioc.PollOne()
+			if iter > 5000 {
+				t.Fatalf("INFRA: no progress (written %d read %d of %d)", wi, ri, n)
+			}
+		}
+		if failure != "" {
+			t.Fatalf("%s; sizes=%v", failure, sizes)
+		}
+		for i, c := range wcalls {
+			if c != 1 {
+				t.Fatalf("write callback of item #%d invoked %d times although every item arrived; sizes=%v", i, c, sizes)
+			}
+		}
+		rec.Case(fmt.Sprintf("ch|%v", sizes), true, []string{"socket-chains"}, map[string]any{"kind": "socket-chain", "items": n, "sizes_head": sizes[:min(len(sizes), 40)]})
+	})
+}
